@@ -11,6 +11,12 @@
 // the transition with the smallest (parent position, event position), and violations
 // are delivered sorted the same way after the depth completes. Only a deadline /
 // MaxStates cap makes a run timing-dependent (it is then reported in Stats.Capped).
+//
+// Parallelism: Config.Workers goroutines inside one process, and/or several processes
+// (vcheck "shards") cooperating through Config.ExchangeDir as one BFS (see Config).
+// Replays that live inside testing/synctest bubbles scale badly over the Ps of one
+// process (every event hands control between the bubble's goroutines); for those use
+// shards with GOMAXPROCS=1 each ("gomaxprocs": 1 in the registry).
 package xstate
 
 import (
